@@ -95,6 +95,49 @@ def save_at(scen: Dict[str, Any], k: int, path: str) -> Dict[str, Any]:
     return {"save_err": r[2].get("err"), "obs": r[3]["obs"], "diag": r[4]["diag"], "lcd_vram": r[5]["vram"]}
 
 
+def run_chain(scen: Dict[str, Any], pts: List[int], root: str, prefix: str, cont: int) -> Dict[str, Any]:
+    """Snapshot generations on the Rust runtime; same protocol and result shape as c16_py.run_chain."""
+    ev = scen["events"]
+    batch: List[Dict[str, Any]] = [_new("G1", scen), {"op": "load", "id": "G1", "path": root},
+                                   {"op": "obs", "id": "G1"}, {"op": "diag", "id": "G1"}]
+    for g in range(2, len(pts) + 1):
+        prev, cur = f"G{g - 1}", f"G{g}"
+        k0, k1 = pts[g - 2], pts[g - 1]
+        path = f"{prefix}g{g}.pcsnap"
+        batch += [{"op": "run", "id": prev, "from": k0, "to": k1, "events": ev}, {"op": "obs", "id": prev},
+                  {"op": "save", "id": prev, "path": path}, {"op": "diag", "id": prev},
+                  {"op": "run", "id": prev, "from": k1, "to": k1 + cont, "events": ev}, {"op": "drop", "id": prev},
+                  _new(cur, scen), {"op": "load", "id": cur, "path": path}, {"op": "obs", "id": cur},
+                  {"op": "diag", "id": cur}]
+    last = f"G{len(pts)}"
+    batch += [{"op": "run", "id": last, "from": pts[-1], "to": pts[-1] + cont, "events": ev},
+              {"op": "drop", "id": last}]
+    r = ops(batch)
+    out: Dict[str, Any] = {"root_load_err": r[1].get("err"), "root_obs": r[2]["obs"], "links": []}
+    if out["root_load_err"] is not None:
+        return out
+    pending: Optional[Dict[str, Any]] = None
+    for g in range(2, len(pts) + 1):
+        b = 4 + (g - 2) * 10
+        if pending is not None:
+            pending["obs"] = (r[b]["obs"] + r[b + 4]["obs"])[:cont]
+        link: Dict[str, Any] = {"gen": g, "k": pts[g - 1], "save_err": r[b + 2].get("err"), "load_err": None,
+                                "R": [r[b + 1]["obs"]] + r[b + 4]["obs"], "ref_diag": r[b + 3]["diag"],
+                                "obs0": None, "diag": None, "obs": []}
+        out["links"].append(link)
+        if link["save_err"] is not None:
+            return out
+        link["load_err"] = r[b + 7].get("err")
+        link["obs0"] = r[b + 8]["obs"]
+        link["diag"] = r[b + 9]["diag"]
+        if link["load_err"] is not None:
+            return out
+        pending = link
+    if pending is not None:
+        pending["obs"] = r[4 + (len(pts) - 1) * 10]["obs"]
+    return out
+
+
 def pack(regs: Dict[str, int]) -> str:
     return ops([{"op": "pack", "regs": regs}])[0]["blob"]
 
